@@ -40,7 +40,7 @@ pub fn run(ctx: &Ctx) -> i32 {
     let functions: Vec<Function> = vec![Function::from(1u64), Function::from(15u64), Function::from(100u64), Function::from(u64::MAX), Function::from("add"), Function::from("foo"), Function::from(""), Function::new_static_named("verifySignature"), Function::new_known(7, Some("seven".to_string())), Function::new_named("verifySignature")];
     let params: Vec<Parameter> = vec![Parameter::from(1u64), Parameter::from(2u64), Parameter::from("lhs"), Parameter::from("x"), Parameter::new_static_named("blob"), Parameter::new_known(3, Some("three".to_string()))];
     let values: Vec<Envelope> = vec![Envelope::new(1), Envelope::new("t"), Envelope::new(-5), Envelope::new(1.5), Envelope::new(true), Envelope::new(known_values::NOTE), Envelope::new("w").wrap_envelope(), Envelope::new("n").add_assertion("a", "b"), Envelope::new_assertion("p", "o"), Envelope::new("e").elide(), Envelope::new("c").compress().unwrap(), Envelope::new(CBOR::to_byte_string([1u8, 2])), Envelope::null()];
-    let notes = ["", "n"];
+    let notes = ["", "n", " ", "\t\n", " padded "];
     let dates: Vec<Option<Date>> = vec![None, Some(Date::from_timestamp(0.0)), Some(Date::from_timestamp(1.5)), Some(Date::from_timestamp(-1.5)), Some(Date::from_timestamp(1720091471.0)), Some(Date::from_timestamp(1720091471.123)), Some(Date::from_timestamp(253402300799.0))];
     // parameter lists of length 0..maxp with repetition
     let maxp = 3;
